@@ -365,6 +365,24 @@ fn sc_c01(seed: u64, thorough: bool) -> Vec<Scenario> {
             let fl = if k % 2 == 0 { Flow::v4(43000, 3478) } else { Flow::v6(43000, 3478) };
             steps.push(Step::Frame(fl.udp(&m)));
         }
+        // last attribute: announced length 0..24 against 0..announced+5 bytes present, for the two
+        // interpreted types and two opaque ones, with and without an attribute in front
+        for ty in [1u16, 3, 0x0020, 0x8022] {
+            for declared in 0..=24u16 {
+                for present in 0..=(declared as usize + 5) {
+                    let lead = (declared as usize + present) % 2 == 1;
+                    let mut val = rng.bytes(present);
+                    if ty == 1 && val.len() >= 2 {
+                        val[0] = 0;
+                        val[1] = 1 + (present % 2) as u8;
+                    }
+                    let id = stun::gen_id(&mut rng, present % 5 != 4);
+                    let m = stun::tlv_case(&id, ty, declared, &val, lead);
+                    let fl = if present % 3 == 2 { Flow::v6(43001, 3478) } else { Flow::v4(43001, 3478) };
+                    steps.push(Step::Frame(fl.udp(&m)));
+                }
+            }
+        }
         out.push(Scenario {
             name: format!("c01-stun-hostile-{}", ci),
             cfg: c,
